@@ -293,7 +293,7 @@ StateAndCovariance = namedtuple("StateAndCovariance", ["state", "covariance"])
 
 
 def assert_valid_covariance(
-    covariance: NDArray, *, name: str = "Covariance", negative_tol: float = -1e-15
+    covariance: NDArray, *, name: str = "Covariance", negative_tol: float = -1e-9
 ):
     """
     Check that the covariance array is well formed:
@@ -305,7 +305,10 @@ def assert_valid_covariance(
     assert np.allclose(covariance, covariance.T)
 
     covariance_eigenvalues = np.linalg.eig(covariance)[0]
-    if np.any(covariance_eigenvalues < negative_tol):
+    # Rounding error in the eigenvalues grows with the magnitude of the entries,
+    # so the tolerance is relative to it
+    scale = max(1.0, float(np.max(np.abs(covariance)))) if covariance.size > 0 else 1.0
+    if np.any(covariance_eigenvalues < negative_tol * scale):
         # negative definite matrix is not a valid representation of uncertainty
         raise AssertionError(
             f"Negative {str(name)}:\n{covariance}\nEigen Values: {min(covariance_eigenvalues)}\n{covariance_eigenvalues}"
